@@ -1268,7 +1268,8 @@ class CInterp:
         et = getattr(self, "type_arrays", {}).get(et, et)
         import re as _re
         m = _re.match(r"^\w+\s*\[(\d+)\]$", et)
-        if m and isinstance(base, Ptr) and base.region is not None and base.region.local is None:
+        flat = isinstance(base, Ptr) and base.region is not None and (base.region.local is None or not any(isinstance(x, (Region, Ptr)) for x in base.region.local))
+        if m and flat:
             stride = int(m.group(1))
             return Ptr(base.region, base.off + idx * stride)
         return self.mem_ref(base, idx)
@@ -1382,13 +1383,23 @@ class CInterp:
                     v = v if v2 is None else v2
             lhs.set(v)
             return v
-        if op == "&&":
+        if op in ("&&", "||"):
             a = self.rv(self.expr(n["inner"][0], env))
-            if not self.truth(a):
-                return False
-            return self.truth(self.rv(self.expr(n["inner"][1], env)))
-        if op == "||":
-            a = self.rv(self.expr(n["inner"][0], env))
+            if isinstance(a, (SBool, SNum)) and self._pure(n["inner"][1]):
+                # both operands free of side effects and traps: one Boolean term instead of two paths (falls back to forking if the
+                # right operand cannot be evaluated in the current state)
+                at = core.as_bool_term(a)
+                if not (z3.is_true(z3.simplify(at)) or z3.is_false(z3.simplify(at))):
+                    try:
+                        b = self.rv(self.expr(n["inner"][1], env))
+                        bt = z3.BoolVal(b) if isinstance(b, bool) else core.as_bool_term(b)
+                        return SBool(z3.simplify(z3.And(at, bt) if op == "&&" else z3.Or(at, bt)))
+                    except Unsupported:
+                        pass
+            if op == "&&":
+                if not self.truth(a):
+                    return False
+                return self.truth(self.rv(self.expr(n["inner"][1], env)))
             if self.truth(a):
                 return True
             return self.truth(self.rv(self.expr(n["inner"][1], env)))
@@ -1407,8 +1418,40 @@ class CInterp:
         lhs.set(v)
         return v
 
+    _PURE_WRAP = ("ParenExpr", "ImplicitCastExpr", "MemberExpr", "CStyleCastExpr", "CXXFunctionalCastExpr", "CXXStaticCastExpr", "MaterializeTemporaryExpr",
+                  "ArraySubscriptExpr", "ConditionalOperator", "ExprWithCleanups")
+    _PURE_BIN = ("+", "-", "*", "<", "<=", ">", ">=", "==", "!=", "&&", "||")
+
+    def _pure(self, n):
+        """expression without side effects, calls or operations that can trap (no division)"""
+        k = n.get("kind")
+        if k in ("IntegerLiteral", "FloatingLiteral", "CXXBoolLiteralExpr", "DeclRefExpr", "CXXThisExpr"):
+            return True
+        if k in self._PURE_WRAP:
+            return all(self._pure(c) for c in n.get("inner", []))
+        if k == "UnaryOperator" and n.get("opcode") in ("-", "!", "+"):
+            return all(self._pure(c) for c in n.get("inner", []))
+        if k == "BinaryOperator" and n.get("opcode") in self._PURE_BIN:
+            return all(self._pure(c) for c in n.get("inner", []))
+        return False
+
     def e_ConditionalOperator(self, n, env):
         c = self.rv(self.expr(n["inner"][0], env))
+        if isinstance(c, (SBool, SNum)) and self._pure(n["inner"][1]) and self._pure(n["inner"][2]):
+            ct = core.as_bool_term(c)
+            if not (z3.is_true(z3.simplify(ct)) or z3.is_false(z3.simplify(ct))):
+                try:
+                    a = self.rv(self.expr(n["inner"][1], env))
+                    b = self.rv(self.expr(n["inner"][2], env))
+                    if isinstance(a, (bool, SBool)) and isinstance(b, (bool, SBool)):
+                        return SBool(z3.If(ct, core.as_bool_term(a), core.as_bool_term(b)))
+                    if isinstance(a, (int, float, SNum)) and isinstance(b, (int, float, SNum)) and not isinstance(a, bool) and not isinstance(b, bool):
+                        ta, tb = term(a), term(b)
+                        if z3.is_real(ta) or z3.is_real(tb):
+                            return SReal(z3.If(ct, rterm(a), rterm(b)))
+                        return SInt(z3.If(ct, ta, tb))
+                except Unsupported:
+                    pass
         if self.truth(c):
             return self.rv(self.expr(n["inner"][1], env))
         return self.rv(self.expr(n["inner"][2], env))
